@@ -539,6 +539,75 @@ def rule_e(ck, R):
                    'the atoms read are the ones deserialised into the caller\'s value; read failures returned, rejected decodes reported as failure' if okd else okd_why)
 
 
+def rule_macros(ck, R):
+    """C01.a (declaration side): every front-end macro REG_<T><kind> / REGx_<T><kind> puts the type tag, the default and
+    the bound(s) into the union member of that type, selects the validator kind of its name and keeps minimum and maximum
+    apart.  The table is what rv_validate later reads (`limit.<member of the type>`): a bound written into another
+    member is read back as a different number.  Decided from the compiler's own expansion of all 96 macros."""
+    from .regs import TYPE_SUFFIX
+    E = R.E
+    kinds = [('', 'REGV_TYPE_TRIVIAL', ()), ('FAIL', 'REGV_TYPE_FAIL', ()), ('MIN', 'REGV_TYPE_MIN', ('min',)), ('MAX', 'REGV_TYPE_MAX', ('max',)),
+             ('RANGE', 'REGV_TYPE_RANGE', ('min', 'max')), ('FNC', 'REGV_TYPE_CALLBACK', ('cb',))]
+    rows, meta = [], []
+    addr = 0
+    for tn, (m, w, k) in sorted(TYPE_SUFFIX.items()):
+        for suffix, vkind, args in kinds:
+            for x in ('', 'x'):
+                name = 'REG%s_%s%s' % (x, m.upper(), suffix)
+                a = {'min': '1', 'max': '2', 'cb': 'vp_cb'}
+                params = ['%d' % len(rows), '%d' % addr] + [a[q] for q in args] + ['3'] + (['&vp_u'] if x else [])
+                rows.append('%s(%s)' % (name, ', '.join(params)))
+                meta.append((name, 'REG_TYPE_' + tn, m, vkind, args, bool(x)))
+                addr += 8
+    src = ('#include <ufw/register-table.h>\nstatic int vp_u;\n'
+           'static bool vp_cb(const RegisterEntry *e, const RegisterValue v) { (void)e; (void)v; return true; }\n'
+           'RegisterEntry vp_tab[] = { %s };\n' % ',\n '.join(rows))
+    try:
+        pu = cast.load('src/registers/core.c', source_text=src)
+        f = cast.init_fields(pu, 'vp_tab')
+    except Exception as e:
+        return ck.broken('C01.a', 'macros', 'include/ufw/register-table.h', 'probe of the REG_* macro family failed: %s' % str(e)[:200])
+    if not f:
+        return ck.broken('C01.a', 'macros', 'include/ufw/register-table.h', 'probe table not understood')
+    nbad = 0
+    for i, (name, tname, m, vkind, args, isx) in enumerate(meta):
+        row = {k[len('[%d].' % i):]: v for k, v in f.items() if k.startswith('[%d].' % i)}
+        bad = None
+        if row.get('type') != E.get(tname):
+            bad = 'type tag is %s, expected %s' % (row.get('type'), tname)
+        dv = {k: v for k, v in row.items() if k.startswith('default_value.')}
+        if bad is None and list(dv) != ['default_value.' + m]:
+            bad = 'the default is written to %s, the %s member is .%s' % (sorted(dv), tname, m)
+        elif bad is None and dv['default_value.' + m] not in (3, 3.0, None):
+            bad = 'the default argument ends up as %s' % dv['default_value.' + m]
+        if bad is None and row.get('check.type') != E.get(vkind):
+            bad = 'validator kind is %s, expected %s' % (row.get('check.type'), vkind)
+        ca = {k[len('check.arg.'):]: v for k, v in row.items() if k.startswith('check.arg.')}
+        want = {}
+        if args == ('min',):
+            want = {'min.' + m: 1}
+        elif args == ('max',):
+            want = {'max.' + m: 2}
+        elif args == ('min', 'max'):
+            want = {'range.min.' + m: 1, 'range.max.' + m: 2}
+        elif args == ('cb',):
+            want = {'cb': ('ref', 'vp_cb')}
+        if bad is None and set(ca) != set(want):
+            bad = 'bounds are written to %s, expected %s (the validator reads the .%s member)' % (sorted(ca), sorted(want), m)
+        elif bad is None:
+            for k_, v_ in want.items():
+                if ca[k_] is not None and ca[k_] != v_ and not (isinstance(ca[k_], float) and ca[k_] == float(v_)):
+                    bad = '%s receives %s, expected %s (minimum and maximum exchanged?)' % (k_, ca[k_], v_)
+        if bad is None and isx and row.get('user') != ('ref', 'vp_u'):
+            bad = 'the user pointer is not stored'
+        if bad:
+            nbad += 1
+            ck.violation('C01.a', 'macro:' + name, 'include/ufw/register-table.h', '%s: %s' % (name, bad))
+    if nbad == 0:
+        ck.holds('C01.a', 'macros', 'include/ufw/register-table.h',
+                 'all %d REG_*/REGx_* macros: type tag, default and bounds in the member of the type, validator kind of the name, min/max kept apart' % len(meta))
+
+
 def run(ck):
     ck.rule('C01.a', 'per RegisterType: rds_serdes[T] pair and rds_size[T] agree with the type the REG_* macros associate; bit summary (K8) of ser_T writes exactly the big/little-endian image of v.value.m(T), des_T is its bitwise inverse and sets type T  [proof for all values]')
     ck.rule('C01.b', 'rv_validate: type test dominates acceptance; per validator kind and type the accepted set is exactly min <= v / v <= max / both (inclusive, same union member), TRIVIAL always, FAIL only DURING_INIT, CALLBACK the callback verdict, unknown kind rejects')
@@ -548,6 +617,7 @@ def run(ck):
     ck.not_decided += ['callback-backed areas and callback validators (user code)', 'storage unchanged beyond the library\'s own writes']
     R = Regs(ck)
     distinct_enums(ck, R.u, 'C01.a', ('REG_TYPE_', 'REGV_TYPE_'), 'include/ufw/register-table.h')
+    rule_macros(ck, R)
     sd = rule_a(ck, R)
     rule_b(ck, R)
     rule_c(ck, R, sd)
